@@ -46,8 +46,8 @@ REQUIRED_COUNTERS = [
     "exports_judged", "model_accepted", "commands_compared", "manifest_compared", "certblock_compared",
     "msign_compared", "bitflips", "reexports_judged", "cfg_path_exports", "cli_exports", "negative_controls",
 ]
-CASE_TIMEOUT_S = 600
-WATCHDOG_S = {"quick": 1500, "thorough": 7200}
+CASE_TIMEOUT_S = 3000  # wall clock, generous: the machine may be shared
+WATCHDOG_S = {"quick": 3000, "thorough": 14400}
 
 CURVES = ("p256", "p384")
 COORD = {"p256": 32, "p384": 48}
@@ -71,6 +71,7 @@ def cases(tier, seed):  # noqa: ARG001
     yield {"kind": "reexport_witness"}
     yield {"kind": "timestamp_zero"}
     yield {"kind": "pck_leading_zeros"}
+    yield {"kind": "zero_value_loads"}
     # API path: every end offset mod 256 (x block counts in the thorough tier)
     block_targets = list(range(1, 13)) if thorough else [None]
     k = 0
@@ -668,6 +669,8 @@ def judge(ctx, data, keys, par, specs, export_no, path, flips="quick", msign=Tru
         detail.update(export=export_no, path=path)
         ctx.violation(f"sb31-command-mismatch{re}:{suffix}", detail)
     ctx.count("commands_compared", len(specs) or 1)
+    if any(img["last_next_hash"]):
+        ctx.note("next_hash_field_of_last_block", f"non-zero on export #{export_no} (not interpreted by a loader; first exports carry zeros)")
     if msign:
         check_msign(ctx, data, img, keys, export_no == 1, re)
     nflips = 0
@@ -975,7 +978,18 @@ def selftest(ctx):  # noqa: ARG001
             except rom.Sb31Reject:
                 continue
             raise AssertionError(f"golden {rel}: flipped bit in {name} accepted")
-    # the stand-alone golden of tests/sbfile is the same container family; check it parses as far as a keyless loader can
+    # a committed NXP-container file without a configuration of its own: standard P-384 roots, the test PCK, rights 3
+    nxp = P("workspace/output_images/lpc55s3x/sb3_384_384_nxp.sb3")
+    if os.path.exists(nxp):
+        std = [pub_of(P(f"workspace/keys_certs/ec_secp384r1_cert{i}.pem"))[1] for i in range(4)]
+        with open(P("workspace/keys/userkey.txt"), encoding="utf-8") as f:
+            pck = bytes.fromhex(f.read().strip())
+        with open(nxp, "rb") as f:
+            img = rom.load(f.read(), rkth=rom.rkth_of("p384", std), pck=pck, kdk_access_rights=3, encrypted=True)
+        assert img["header"]["image_type"] == 7, "sb3_384_384_nxp.sb3 is not an NXP container"
+        accepted += 1
+    # (tests/sbfile/sb31/data/sb3_384_384.sb3 is byte-identical to lpc55s3x/sb3_384_384.sb3; six other committed *.sb3
+    #  files from 2020 are referenced by no test and use a pre-release layout - 16-byte erase, other manifest - skipped)
     assert accepted >= 15, f"only {accepted} committed SB3.1 files found/accepted"
     res.update(goldens_accepted=accepted, goldens_with_inconsistent_isk_rejected=rejected_as_expected, goldens_commands_compared=compared)
     return res
@@ -1043,7 +1057,7 @@ def run_case(case, ctx):  # noqa: C901
             keys = pick_keys(rng, root_curve="p256", isk_kind="none", n_roots=1)
             par = dict(gen_container_params(rng, keys), encrypted=True, pck=pck)
             specs = [gen_spec(rng, "erase")]
-            wd = os.path.join(ctx.workdir, f"pz{len(os.listdir(ctx.workdir)) if os.path.isdir(ctx.workdir) else 0}")
+            wd = os.path.join(ctx.workdir, f"pz{pck[-1]}_{pck[16]}")
             cfg, specs2, keys2, par2 = build_config(ctx, rng, fam, facts, keys, dict(par, pck=b"\x01" + pck[1:]), specs, wd)
             cfg["containerKeyBlobEncryptionKey"] = pck.hex()
             from spsdk.sbfile.sb31.images import SecureBinary31
@@ -1059,6 +1073,28 @@ def run_case(case, ctx):  # noqa: C901
             else:
                 del SIGN_LOG[:]
                 judge(ctx, bytes(sb.export()), keys2, dict(par2, pck=pck), specs2, 1, "cfg", sig_extra={"directed": "pck0"})
+        return
+
+    if kind == "zero_value_loads":
+        # `values: 0` / `value: 0` are falsy for SPSDK and refused ("Unsupported LOAD command args"): a refusal is
+        # not a violation; if a later version accepts them they are judged like any other load
+        from spsdk.sbfile.sb31.images import SecureBinary31
+
+        fam = fams[0]
+        facts = family_facts(fam)
+        forms = [({"values": 0}, {"data": bytes(4)}), ({"value": 0}, {"value_le": 0}), ({"values": "0"}, {"data": bytes(4)})]
+        for j, (form, spec_extra) in enumerate(forms):
+            keys = pick_keys(rng, root_curve="p384", isk_kind="none", n_roots=2)
+            par = gen_container_params(rng, keys)
+            wd = os.path.join(ctx.workdir, f"zv{j}")
+            cfg, specs, keys, par = build_config(ctx, rng, fam, facts, keys, par, [gen_spec(rng, "erase")], wd)
+            cfg["commands"].append({"load": dict(form, address=0x100)})
+            specs.append(dict({"cmd": "load", "address": 0x100, "memory_id": 0}, **spec_extra))
+            ok, sb = ctx.call(SecureBinary31.load_from_config, cfg, search_paths=[wd])
+            if not ok:
+                ctx.refused({"path": "cfg", "directed": "zero-value-load", "form": sorted(form)[0]}, core.exc_brief(sb))
+                continue
+            history(ctx, sb, keys, par, specs, 1, "cfg", ALL_CMDS, sig_extra={"directed": "zero-value-load", "form": str(form)})
         return
 
     if kind in ("cfg", "cfg_extra_families"):
@@ -1127,7 +1163,7 @@ def run_case(case, ctx):  # noqa: C901
         keys = pick_keys(rng, root_curve=CURVES[case["k"] % 2], isk_kind=["none", "same", "other", "same"][case["k"] % 4],
                          n_roots=1 + case["k"] % 4)
         par = gen_container_params(rng, keys)
-        specs = gen_command_list(rng, ALL_CMDS, end_mod=rng.randrange(256), blocks=core.pick(rng, [1, 1, 2, 3]), n_cmds=core.pick(rng, [0, 1, 2, 3]))
+        specs = gen_command_list(rng, ALL_CMDS, end_mod=rng.randrange(256), blocks=core.pick(rng, [1, 1, 2, 2, 3]), n_cmds=core.pick(rng, [0, 1, 2, 3]))
         sb = build_api(rng, fams[case["k"] % len(fams)], keys, par, specs)
         history(ctx, sb, keys, par, specs, 1, "api", ALL_CMDS, flips="full", sig_extra={"sweep": "every-bit"})
         return
